@@ -23,7 +23,9 @@ CJK = ["中文", "日本語abc", "abc漢字", "漢"]
 QUOTES = ['"quoted', 'phrase"', "'single", "q'", '"word"', "'w'", "it's", "Jones'", 'x="foo"', "x='y'", '\\"esc\\"', "\\'e\\'", '—"dash"', '"a', 'b",',
           '("paren")', '"end."', "'tis", "rock'n'roll", '""', "''", '"', "'", 'say:"x"', '"q"?', "’already’", "“curly”", "don't", "dogs'", "'90s", '"Hello,"',
           "'end.'", "'stop!'", "said.'", "word.'", '"done."', "'really?'", "disaster.'",
-          '"`code`"', "'*em*'", '"[l](u)"', '**"bold"**', '"{{ v }}"', "{% t a='b' %}'s"]
+          '"`code`"', "'*em*'", '"[l](u)"', '**"bold"**', '"{{ v }}"', "{% t a='b' %}'s",
+          '"she answered "never" and left"', "'a 'b' c'", '"He said \'hi\' to me"', '"outer “curly” inside"', "'it's 'x' y'"]
+NESTED_QUOTES = ['"she answered "never" and left"', "'a 'b' c'", '"He said \'hi\' to me"', '"outer “curly” inside"', "'it's 'x' y'", '"a "b" c" d "e"']
 DOTS = ['"wait"...', "'x'...", '"a"...and', "(\"q\")...", "...", "wait...", "...and", "a...b", "....", "..", "x....y", "end...", '"...', '..."', "...,", "(...)", "...)", "1...", "…", "word…", "... ...", "......",
         "`...`", "[...](u)", "*...*", "-...", "...!", "...?"]
 
@@ -35,7 +37,7 @@ def words(feat):
             # a pair of lone "`" words makes a code span around generated gaps, whose width the layouts then vary: not for C03
             pools.append(st.sampled_from([w for w in v if (w != "[^a]:" or "footnote" in feat) and (w != "`" or "no_lone_tick" not in feat)]))
     if "cjk" in feat: pools.append(st.sampled_from(CJK))
-    if "quotes" in feat: pools += [st.sampled_from(QUOTES)] * 3
+    if "quotes" in feat: pools += [st.sampled_from(QUOTES)] * 3 + [st.sampled_from(NESTED_QUOTES)]
     if "dots" in feat: pools += [st.sampled_from(DOTS)] * 3
     return st.one_of(pools)
 
